@@ -166,8 +166,25 @@ def rule_b(repo, chk):
     chk.notes['resetting_methods'] = sorted(resetting)
     r = repo.find('jedi.inference', 'InferenceState.reset_recursion_limitations')
     news = [norm(s.value) for s in stmts_in(r, ast.Assign)]
-    ok = any('RecursionDetector()' in x for x in news) and any('ExecutionRecursionDetector(' in x for x in news)
-    chk.ob('C16.b', ok, r, 'reset_recursion_limitations installs fresh RecursionDetector and ExecutionRecursionDetector objects', str(news))
+    # either a fresh detector object is installed, or the detector's own reset() restores every field its __init__ sets
+    for attr, cname in (('recursion_detector', 'RecursionDetector'), ('execution_recursion_detector', 'ExecutionRecursionDetector')):
+        fresh = [s for s in stmts_in(r, ast.Assign) if norm(s.targets[0]) == 'self.' + attr and call_name(s.value) == cname]
+        if fresh:
+            chk.ob('C16.b', True, fresh[0], 'reset_recursion_limitations installs a fresh %s' % cname)
+            continue
+        calls = [c for c in calls_in(r) if isinstance(c.func, ast.Attribute) and norm(c.func.value) == 'self.' + attr]
+        c = repo.cls('jedi.inference.recursion', cname)
+        missing = None
+        if calls and calls[0].func.attr in c.methods and c.methods.get('__init__') is not None:
+            def sets(fn):
+                return {t.attr: norm(a.value) for a in stmts_in(fn, ast.Assign) for t in a.targets
+                        if isinstance(t, ast.Attribute) and isinstance(t.value, ast.Name) and t.value.id == 'self'}
+            ini, rst = sets(c.methods['__init__']), sets(c.methods[calls[0].func.attr])
+            pr = set(params(c.methods['__init__']))
+            missing = sorted(k for k, v in ini.items() if rst.get(k) != v and not (v in pr))
+        chk.ob('C16.b', missing == [], calls[0] if calls else r,
+               'reset_recursion_limitations gives %s a clean slate (a fresh object, or a reset() restoring every field __init__ sets)' % cname,
+               'no fresh object and no reset call' if missing is None else 'fields left from the previous query: %s' % missing)
     # every counter kept on the inference state that only grows is a per-query budget and must be re-initialised by the reset
     init = repo.find('jedi.inference', 'InferenceState.__init__')
     fields = {t.attr for a in stmts_in(init, ast.Assign) for t in a.targets if isinstance(t, ast.Attribute) and isinstance(t.value, ast.Name) and t.value.id == 'self'}
@@ -329,10 +346,109 @@ def rule_d(repo, chk):
         chk.ob('C16.d', kwarg(c, 'reverse') is None, c, 'ascending order')
 
 
+ORDER_FREE = {'sorted', 'sorted_definitions', '_sort_names_by_start_pos', 'set', 'frozenset', 'len', 'any', 'all', 'sum', 'min', 'max', 'bool'}
+SET_SEQ_TRIAGED = {
+    # construct key -> why the order of this in-place set does not reach a result
+    'jedi.inference.references:find_references|set((d.get_root_context() for d in found_names))':
+        'only decides which modules are searched; every API method that reaches find_references sorts its result (sorted_definitions)',
+}
+
+
+def _is_set_expr(e):
+    return (isinstance(e, ast.Call) and isinstance(e.func, ast.Name) and e.func.id in ('set', 'frozenset') and e.args) or \
+        isinstance(e, ast.SetComp) or (isinstance(e, ast.Set))
+
+
+def rule_e(repo, chk):
+    chk.clause('C16.e', 'a set built in place (set(x), {..}, set comprehension: hash order = string-hash seed / addresses) is never turned back '
+                        'into a sequence (list()/tuple()/iteration/unpacking) that leaves the function - returned, yielded or accumulated - '
+                        'without passing sorted()/sorted_definitions(); package-wide')
+    n = 0
+    for mod in repo.modules.values():
+        for q, f in sorted(mod.defs.items()):
+            if not isinstance(f, FUNC_TYPES):
+                continue
+            for node in own_nodes(f):
+                hit = None
+                if isinstance(node, ast.Call) and isinstance(node.func, ast.Name) and node.func.id in ('list', 'tuple', 'enumerate', 'iter', 'reversed') \
+                        and node.args and _is_set_expr(node.args[0]):
+                    hit, conv = node.args[0], node
+                elif isinstance(node, (ast.For, ast.comprehension)) and _is_set_expr(node.iter):
+                    hit, conv = node.iter, node
+                elif isinstance(node, ast.Starred) and _is_set_expr(node.value) and isinstance(node.ctx, ast.Load):
+                    hit, conv = node.value, node
+                if hit is None:
+                    continue
+                n += 1
+                key = '%s:%s|%s' % (mod.name, q, norm(hit))
+                if key in SET_SEQ_TRIAGED:
+                    chk.ob('C16.e', True, hit, 'iteration of `%s`: triaged (%s)' % (short(hit, 50), SET_SEQ_TRIAGED[key]))
+                    continue
+                why = _escapes_unsorted(repo, f, conv)
+                chk.ob('C16.e', why is None, hit, 'the hash order of `%s` in %s does not leave the function as a sequence' % (short(hit, 50), q),
+                       why or '', key='set-seq|' + key)
+    chk.floor('C16.e', n, 2, '(in-place sets turned into sequences, package-wide)')
+
+
+def _escapes_unsorted(repo, f, conv):
+    """None if the sequence made from the set is consumed order-free or sorted inside f; else a description"""
+    # the expression that carries the order: climb to the statement
+    node = conv
+    if isinstance(conv, ast.comprehension):
+        node = conv._parent                # ListComp/GeneratorExp/...
+        if isinstance(node, (ast.SetComp, ast.DictComp)):
+            return None
+    if isinstance(conv, ast.For):
+        carriers = [x for x in ast.walk(conv) if isinstance(x, (ast.Yield, ast.YieldFrom, ast.Return))
+                    or (isinstance(x, ast.Call) and isinstance(x.func, ast.Attribute) and x.func.attr in ('append', 'extend', 'insert'))
+                    or (isinstance(x, ast.AugAssign) and isinstance(x.op, ast.Add))]
+        if carriers:
+            return 'the loop body yields/returns/accumulates in iteration order (L%s)' % carriers[0].lineno
+        return None
+    p = node
+    while p is not None and not isinstance(p, ast.stmt):
+        par = getattr(p, '_parent', None)
+        if isinstance(par, ast.Call) and call_name(par) in ORDER_FREE and p in par.args:
+            return None
+        if isinstance(par, ast.Compare) or isinstance(par, (ast.SetComp,)):
+            return None
+        p = par
+    st = p
+    if isinstance(st, ast.Return) or (isinstance(st, ast.Expr) and isinstance(st.value, (ast.Yield, ast.YieldFrom))):
+        return 'returned/yielded directly at L%s' % st.lineno
+    if isinstance(st, (ast.Assign, ast.AnnAssign, ast.AugAssign)):
+        tg = st.targets if isinstance(st, ast.Assign) else [st.target]
+        names = {x.id for t in tg for x in ast.walk(t) if isinstance(x, ast.Name)}
+        attrs = [t for t in tg if isinstance(t, (ast.Attribute, ast.Subscript))]
+        if attrs:
+            return 'stored in `%s` at L%s' % (short(attrs[0]), st.lineno)
+        for r in own_nodes(f):
+            val = None
+            if isinstance(r, ast.Return):
+                val = r.value
+            elif isinstance(r, (ast.Yield, ast.YieldFrom)):
+                val = r.value
+            if val is None:
+                continue
+            for x in ast.walk(val):
+                if isinstance(x, ast.Name) and x.id in names:
+                    q_ = x
+                    clean = False
+                    while q_ is not val and q_ is not None:
+                        par = getattr(q_, '_parent', None)
+                        if isinstance(par, ast.Call) and call_name(par) in ORDER_FREE:
+                            clean = True
+                            break
+                        q_ = par
+                    if not clean:
+                        return 'assigned to `%s` and returned/yielded unsorted at L%s' % (x.id, r.lineno)
+    return None
+
+
 def describe(chk):
     chk.undecided('equality of result SETS across processes and repetitions (value dependent); order inside result objects\' own methods '
                   '(Name.infer/goto/get_signatures)')
     chk.assume('ValueSet typing is a may-analysis: exact for direct/self calls, majority vote over the implementations for duck-typed method calls')
 
 
-RULES = [('C16.a', rule_a), ('C16.b', rule_b), ('C16.c', rule_c), ('C16.d', rule_d)]
+RULES = [('C16.a', rule_a), ('C16.b', rule_b), ('C16.c', rule_c), ('C16.d', rule_d), ('C16.e', rule_e)]
